@@ -520,3 +520,32 @@ func vfSymbolic() bool { return false }
 // real code always runs).
 func vfUseReal(callee string)  {}
 func vfUseRealPkg(path string) {}
+
+// vfDeadline: a deadline relative to the clock, from a case split: the zero
+// Time (no deadline), one hour ago (already expired), or 1..3 hours ahead
+// (three distinct live deadlines). Expressing deadlines relative to time.Now
+// keeps the symbolic clock and the native clock in agreement about which of
+// them have expired.
+func vfDeadline() time.Time {
+	switch vfChoose(5) {
+	case 0:
+		return time.Time{}
+	case 1:
+		return time.Now().Add(-time.Hour)
+	case 2:
+		return time.Now().Add(time.Hour)
+	case 3:
+		return time.Now().Add(2 * time.Hour)
+	}
+	return time.Now().Add(3 * time.Hour)
+}
+
+// vfDeadlinePick: like vfDeadline with an explicit menu of hour offsets
+// (0 stands for the zero Time).
+func vfDeadlinePick(hours []int) time.Time {
+	h := hours[vfChoose(len(hours))]
+	if h == 0 {
+		return time.Time{}
+	}
+	return time.Now().Add(time.Duration(h) * time.Hour)
+}
